@@ -651,3 +651,39 @@ Section Reject.
     rewrite rconcat_skip by reflexivity. rewrite count_nonnull_skip. reflexivity.
   Qed.
 End Reject.
+
+(* ---- BinaryConv.do in front of the converter (j2t_do) ---- *)
+Lemma j2t_do_text : forall P D o t c r, (is_str_ty t = false \/ c = 34) ->
+  j2t_do P D o t (c :: r) = j2t_text P D o t (c :: r).
+Proof.
+  intros P D o t c r [H|H]; unfold j2t_do.
+  - rewrite H. reflexivity.
+  - subst c. rewrite Z.eqb_refl. cbn [negb]. rewrite andb_false_r. reflexivity.
+Qed.
+
+Lemma j2t_do_unquoted : forall P D o t c r, is_str_ty t = true -> c <> 34 ->
+  j2t_do P D o t (c :: r) = j2t_val P D o t 1 (JStr (c :: r)).
+Proof.
+  intros P D o t c r Ht Hc. unfold j2t_do. rewrite Ht. destruct (Z.eqb_spec c 34); [contradiction|]. reflexivity.
+Qed.
+
+Lemma j2t_do_empty : forall P D o t, j2t_do P D o t [] = match t with TStruct _ => Ok [0] | _ => Err E_PARSE end.
+Proof. reflexivity. Qed.
+
+(* the canonical document of a conforming value goes through BinaryConv.do unchanged: for a string-typed root it starts with the quote *)
+Theorem j2t_do_encodes_denoted_lemma : forall dlex D o v t r,
+  conf dlex D t v = true -> Z.of_nat (depth v) <= max_level -> stop r = true ->
+  j2t_do strict D o t (json_print (json_of dlex D o t v) ++ r) = Ok (encode v).
+Proof.
+  intros dlex D o v t r Hc Hd Hr.
+  pose proof (j2t_text_encodes_denoted_lemma dlex D o v t r Hc Hd Hr) as Ht.
+  pose proof (json_of_wf dlex D o v t Hc) as Hw.
+  destruct (print_starts _ Hw) as (c & tl & E & _).
+  rewrite E in *. cbn [app] in *.
+  rewrite j2t_do_text; [exact Ht|].
+  destruct (is_str_ty t) eqn:Es; [right | left; reflexivity].
+  destruct t; try discriminate Es; destruct v; cbn in Hc; try discriminate Hc;
+    cbn [json_of json_print quote_ref] in E;
+    repeat match type of E with context [if ?b then _ else _] => destruct b end;
+    cbn [json_print quote_ref] in E; injection E; intros; subst; reflexivity.
+Qed.
